@@ -153,14 +153,51 @@ def oracle_reflect(inp):
     return res
 
 
-def call_refract(inp, rows_=None):
+# `refract` is called in a worker process under a watchdog: the unrepaired loop need not return
+_GUARD = None
+
+
+class NoReturn(Exception):
+    pass
+
+
+def guard():
+    global _GUARD
+    if _GUARD is None:
+        from harness.props.c12_watchdog import Guard
+        _GUARD = Guard('harness.props.c11', timeout=10.0)
+    return _GUARD
+
+
+def w_refract(inp, rows_=None):
+    """(worker side) the real refract on float32 tensors; nested lists"""
     lr, _ = api()
     rays = torch.tensor(inp['rays'], dtype=torch.float32); nrms = torch.tensor(inp['normals'], dtype=torch.float32)
     if rows_ is not None:
-        rays = rays[rows_:rows_ + 1]; nrms = nrms[(0 if nrms.shape[0] == 1 else rows_):(0 if nrms.shape[0] == 1 else rows_) + 1]
+        k = 0 if nrms.shape[0] == 1 else rows_
+        rays = rays[rows_:rows_ + 1]; nrms = nrms[k:k + 1]
     if inp.get('two_d'): rays, nrms = rays[0], nrms[0]
     kw = {} if inp.get('error') is None else {'error': inp['error']}
-    return lr.refract(rays, nrms, inp['n1'], inp['n2'], **kw).numpy().astype(float)
+    return lr.refract(rays, nrms, inp['n1'], inp['n2'], **kw).tolist()
+
+
+def w_refract64(v, n, n1, n2, kw):
+    """(worker side) the real refract on float64 tensors (translator self-check)"""
+    lr, _ = api()
+    return lr.refract(torch.tensor(v, dtype=torch.float64), torch.tensor(n, dtype=torch.float64), n1, n2, **kw).tolist()
+
+
+def guarded(fn, *args):
+    kind, val = guard().call(fn, *args)
+    if kind == 'timeout':
+        raise NoReturn('no return within %s s (watchdog)' % val if val else 'not called: the watchdog expired %d times already' % guard().timeouts)
+    if kind == 'exc':
+        raise RuntimeError(val)
+    return np.array(val, float)
+
+
+def call_refract(inp, rows_=None):
+    return guarded('w_refract', {k: inp[k] for k in ('rays', 'normals', 'n1', 'n2', 'error', 'two_d') if k in inp}, rows_)
 
 
 def oracle_refract(inp):
@@ -225,6 +262,8 @@ def apply_oracle(ctx, name, inp):
     fn = F_REFR if (name == 'refract' or inp.get('what') == 'refract') else (F_TREFL if inp.get('api') == 'torch' else F_NREFL)
     try:
         res = ORACLES[name](inp)
+    except NoReturn as e:
+        res = [('returns', False, 'a result', str(e))]
     except Exception as e:
         res = [('no_exception', False, 'a result', repr(e))]
     for clause, ok, exp, obs in res:
@@ -281,6 +320,8 @@ def self_check(ctx, g, info, rcases, fcases):
         if not emit.close(got, want, rtol, atol):
             bad += 1; ctx.log('self-check mismatch', name, got, want)
     for c in rcases:
+        if 'ns_refl_d_1_2' not in g.by_name:
+            break
         m = len(c['rays']); rays = np.array(c['rays'], float); nrms = np.array(c['normals'], float)
         if m == 1:
             env = dict(env_rows('v', rays), **env_rows('n', nrms))
@@ -311,7 +352,7 @@ def self_check(ctx, g, info, rcases, fcases):
     # refract: pieces composed by the loop == the real function (float64 tensors, one ray), incl. a TIR and a capped case
     extra = [{'rays': [[[0, 0, 1], [0.8, 0.0, -0.6]]], 'normals': [[[0.1, 0.2, 0.0], [0.0, 0.0, 2.0]]], 'n1': 1.5, 'n2': 1.0, 'error': 0.01},
              {'rays': [[[0, 0, 1], [0.6, 0.0, -0.8]]], 'normals': [[[0.1, 0.2, 0.0], [0.0, 0.0, 0.5]]], 'n1': 1.0, 'n2': 1.5, 'error': 1e-9, 'cap': 2}]
-    for c in fcases + extra:
+    for c in (fcases + extra if info is not None else []):
         if len(c['rays']) != 1:
             continue
         v = np.array(c['rays'], float); nn = np.array(c['normals'], float)
@@ -321,7 +362,7 @@ def self_check(ctx, g, info, rcases, fcases):
             kw['max_iterations'] = cap
         elif 'cap' in c:
             continue
-        want = lr.refract(torch.tensor(v, dtype=torch.float64), torch.tensor(nn, dtype=torch.float64), c['n1'], c['n2'], **kw).numpy()[0]
+        want = guarded('w_refract64', v.tolist(), nn.tolist(), c['n1'], c['n2'], kw)[0]
         got, it = compose_refract(g, v, nn, c['n1'], c['n2'], c['error'], cap)
         for j in range(2):
             for k in range(3):
@@ -355,23 +396,31 @@ def run(ctx):
     ctx.gate()
     ctx.ensure_theories(['theories/C11/Props.vo'])
     ctx.theorems('OdakV.C11.Props', PROPS)
+    g, info = emit.Gen(), None
     try:
-        g, info = recipe.trace()
-        ctx.programs = len(g.defs)
-        ctx.obligation('translator:trace(%d definitions, %d nodes)' % (len(g.defs), g.total_size()), True)
+        recipe.trace_reflect(g)
+        ctx.obligation('translator:trace-reflect(%d definitions)' % len(g.defs), True)
     except Exception as e:
-        g = None
-        ctx.obligation('translator:trace', False, repr(e))
+        ctx.obligation('translator:trace-reflect', False, repr(e))
+    try:
+        k = len(g.defs)
+        info = recipe.trace_refract(g, with_guard=True)
+        ctx.obligation('translator:trace-refract(%d definitions)' % (len(g.defs) - k), True)
+    except Exception as e:
+        ctx.obligation('translator:trace-refract', False, repr(e))
+    ctx.programs = len(g.defs)
     nr_, nf_ = (1500, 1500) if ctx.thorough else (260, 260)
     rcases, fcases = gen_reflect(ctx, nr_), gen_refract(ctx, nf_)
-    if g is not None:
-        ctx.compile_tie('GenC11', g.text(), [['C11_TieA', 'C11_TieB'], ['C11_TieProps']])
+    ctx.compile_tie('GenC11', g.text(), [['C11_TieA', 'C11_TieB'], ['C11_TieProps']])
+    if info is not None:
         loop_control(ctx, info)
-        try:
-            self_check(ctx, g, info, rcases[:150], fcases[:150])
-        except Exception as e:
-            ctx.obligation('translator-self-check', False, repr(e))
+    try:
+        self_check(ctx, g, info, rcases[:150], fcases[:150])
+    except Exception as e:
+        ctx.obligation('translator-self-check', False, repr(e))
+    if 't_refl_d_0' in g.by_name:
         ctx.sample({'traced_definition': 't_refl_d_0', 'coq': shim.coq(g.by_name['t_refl_d_0'][1])[:300]})
+    if info is not None:
         ctx.sample({'traced_definition': 'g_rf_eps', 'coq': shim.coq(g.by_name['g_rf_eps'][1])[:300], 'guard': info['guard_src']})
     for c in rcases:
         for which in ('torch', 'numpy'):
@@ -405,6 +454,8 @@ def replay(ctx, rec):
     inp = dict(rec['input']); name = inp.pop('oracle')
     try:
         res = ORACLES[name](inp)
+    except NoReturn as e:
+        res = [('returns', False, 'a result', str(e))]
     except Exception as e:
         res = [('no_exception', False, 'a result', repr(e))]
     for r in res:
